@@ -5,6 +5,9 @@ Import ListNotations.
 
 (* ---- list helpers ------------------------------------------------------------------------------ *)
 
+Lemma ensure_grid_full (g : list N) (n : nat) : n = length g -> ensure_grid (Some g) n = g.
+Proof. intros ->. unfold ensure_grid. rewrite Nat.sub_diag. cbn [repeat]. apply app_nil_r. Qed.
+
 Lemma forallb_app' {A} (f : A -> bool) l m : forallb f (l ++ m) = forallb f l && forallb f m.
 Proof. induction l; simpl; [reflexivity|]. now rewrite IHl, andb_assoc. Qed.
 Lemma forallb_firstn {A} (f : A -> bool) n l : forallb f l = true -> forallb f (firstn n l) = true.
@@ -148,6 +151,7 @@ Proof.
     destruct ((pos <? 0)%Z || (Z.of_nat (length r0) <? pos)%Z) eqn:B; [split; discriminate|].
     destruct (Nat.ltb (length (r0 :: rest)) (length data)); [split; discriminate|].
         assert (L0 : length r0 = length g) by (apply (rows_all_len g (r0 :: rest)); [exact H1|now left]).
+    rewrite (ensure_grid_full g (length r0) L0).
     apply orb_false_iff in B. destruct B as [B1 B2]. apply Z.ltb_ge in B1. apply Z.ltb_ge in B2.
     assert (Hp : Z.to_nat pos <= length g) by lia.
     set (p := Z.to_nat pos) in *.
@@ -172,6 +176,7 @@ Proof.
     destruct rws as [|r0 rest]; [split; discriminate|].
     destruct (negb (in_range i (length r0))) eqn:B; [split; discriminate|].
     destruct (Nat.leb (length r0) 1) eqn:B1; [split; discriminate|].     assert (L0 : length r0 = length g) by (apply (rows_all_len g (r0 :: rest)); [exact H1|now left]).
+    rewrite (ensure_grid_full g (length r0) L0).
     apply negb_false_iff in B. unfold in_range in B. apply andb_true_iff in B. destruct B as [Ba Bb].
     apply Z.leb_le in Ba. apply Z.ltb_lt in Bb. apply Nat.leb_gt in B1.
     set (p := Z.to_nat i) in *. assert (Hp : p < length g) by lia.
@@ -193,6 +198,7 @@ Proof.
     destruct rws as [|r0 rest]; [split; discriminate|].
     destruct ((a <? 0)%Z || (Z.of_nat (length r0) <=? b)%Z || (b <? a)%Z) eqn:B; [split; discriminate|].
     destruct (Z.of_nat (length r0) - (b - a + 1) <? 1)%Z eqn:B1; [split; discriminate|].     assert (L0 : length r0 = length g) by (apply (rows_all_len g (r0 :: rest)); [exact H1|now left]).
+    rewrite (ensure_grid_full g (length r0) L0).
     apply orb_false_iff in B. destruct B as [B Bc]. apply orb_false_iff in B. destruct B as [Ba Bb].
     apply Z.ltb_ge in Ba. apply Z.leb_gt in Bb. apply Z.ltb_ge in Bc. apply Z.ltb_ge in B1.
     set (p := Z.to_nat a) in *. set (q := Z.to_nat b) in *.
@@ -346,8 +352,7 @@ Theorem delete_column_matrix t i t' : step t (DeleteColumn i) = Ok t' ->
 Proof.
   unfold step. destruct (rows t) as [|r0 rest] eqn:R; [intros HH; cbv beta iota in HH; discriminate HH|].
   destruct (negb (in_range i (length r0))); [intros HH; cbv beta iota in HH; discriminate HH|]. destruct (Nat.leb (length r0) 1); [intros HH; cbv beta iota in HH; discriminate HH|].
-  destruct (grid t) as [g|]; [|intros HH; cbv beta iota in HH; discriminate HH].
-  destruct (delete_range (Z.to_nat i) (Z.to_nat i) g); [|intros HH; cbv beta iota in HH; discriminate HH].
+  destruct (delete_range (Z.to_nat i) (Z.to_nat i) (ensure_grid (grid t) (length r0))); [|intros HH; cbv beta iota in HH; discriminate HH].
   destruct (map_opt (delete_range (Z.to_nat i) (Z.to_nat i)) (r0 :: rest)) as [rs|] eqn:M; [|intros HH; cbv beta iota in HH; discriminate HH].
   intros H. apply ok_inj in H. subst t'. rewrite !matrix_rows. cbn [rows]. rewrite R.
   clear R. revert rs M. generalize (r0 :: rest) as rws. induction rws as [|rw rws IH]; intros rs M; simpl in M.
@@ -404,3 +409,77 @@ Example merges_on_plain_ok :
   | _, _, _ => False
   end.
 Proof. vm_compute. repeat split; reflexivity. Qed.
+
+(* ---- column edits on a table read without (or with too short) a grid definition ------------------------------ *)
+
+Lemma ensure_grid_length g n : n <= length (ensure_grid g n).
+Proof. unfold ensure_grid. destruct g as [l|]; rewrite app_length, repeat_length; cbn [length]; lia. Qed.
+
+Definition is_column_edit (o : top) : bool :=
+  match o with InsertColumn _ _ _ | DeleteColumn _ | DeleteColumns _ _ => true | _ => false end.
+
+(* whatever the grid definition (none, too short, too long): on rows of equal length without merges no column edit
+   panics *)
+Theorem column_edit_no_panic_any_grid g0 rws n o :
+  forallb (good_row n) rws = true -> is_column_edit o = true -> step (mkTable g0 rws) o <> Panic.
+Proof.
+  intros H1 Ho. destruct o; try discriminate Ho; unfold step; cbn [rows grid].
+  - (* InsertColumn *)
+    destruct rws as [|r0 rest]; [discriminate|].
+    destruct ((pos <? 0)%Z || (Z.of_nat (length r0) <? pos)%Z) eqn:B; [discriminate|].
+    destruct (Nat.ltb (length (r0 :: rest)) (length data)); [discriminate|].
+    assert (L0 : length r0 = n) by (apply good_row_len; cbn [forallb] in H1; apply andb_true_iff in H1; apply H1).
+    apply orb_false_iff in B. destruct B as [B1 B2]. apply Z.ltb_ge in B1. apply Z.ltb_ge in B2.
+    pose proof (ensure_grid_length g0 (length r0)) as LG.
+    set (g := ensure_grid g0 (length r0)) in *. set (p := Z.to_nat pos) in *.
+    assert (Hp : p <= n) by lia.
+    assert (IG : insert_at p width g = Some (firstn p g ++ width :: skipn p g)).
+    { unfold insert_at. assert (Ep : Nat.leb p (length g) = true) by (apply Nat.leb_le; lia). now rewrite Ep. }
+    rewrite IG.
+    assert (MO : map_opt (fun x => x) (mapi (fun i rw => insert_at p (new_cell (nth_text data i)) rw) (r0 :: rest))
+                 = Some (mapi (fun i rw => firstn p rw ++ new_cell (nth_text data i) :: skipn p rw) (r0 :: rest))).
+    { unfold mapi. generalize 0 as k. revert H1. generalize (r0 :: rest) as rws. induction rws as [|rw rws IH]; intros Hall k; simpl; [reflexivity|].
+      simpl in Hall. apply andb_true_iff in Hall. destruct Hall as [Ha Hb].
+      destruct (good_row_insert _ p (new_cell (nth_text data k)) rw Ha (good_new_cell _) Hp) as [Ei _].
+      rewrite Ei, (IH Hb (S k)). reflexivity. }
+    rewrite MO. discriminate.
+  - (* DeleteColumn *)
+    destruct rws as [|r0 rest]; [discriminate|].
+    destruct (negb (in_range i (length r0))) eqn:B; [discriminate|].
+    destruct (Nat.leb (length r0) 1) eqn:B1; [discriminate|].
+    assert (L0 : length r0 = n) by (apply good_row_len; cbn [forallb] in H1; apply andb_true_iff in H1; apply H1).
+    apply negb_false_iff in B. unfold in_range in B. apply andb_true_iff in B. destruct B as [Ba Bb].
+    apply Z.leb_le in Ba. apply Z.ltb_lt in Bb. apply Nat.leb_gt in B1.
+    pose proof (ensure_grid_length g0 (length r0)) as LG.
+    set (g := ensure_grid g0 (length r0)) in *. set (p := Z.to_nat i) in *. assert (Hp : p < n) by lia.
+    assert (DG : delete_range p p g = Some (firstn p g ++ skipn (S p) g)).
+    { unfold delete_range. assert (Ep : Nat.leb (S p) (length g) = true) by (apply Nat.leb_le; lia). now rewrite Ep. }
+    rewrite DG.
+    rewrite (map_opt_all _ (fun rw => firstn p rw ++ skipn (S p) rw)).
+    2:{ intros rw Hin. assert (Ga : good_row n rw = true) by (rewrite forallb_forall in H1; now apply H1).
+        now destruct (good_row_delete _ p p rw Ga (le_n p) Hp). }
+    discriminate.
+  - (* DeleteColumns *)
+    destruct rws as [|r0 rest]; [discriminate|].
+    destruct ((a <? 0)%Z || (Z.of_nat (length r0) <=? b)%Z || (b <? a)%Z) eqn:B; [discriminate|].
+    destruct (Z.of_nat (length r0) - (b - a + 1) <? 1)%Z eqn:B1; [discriminate|].
+    assert (L0 : length r0 = n) by (apply good_row_len; cbn [forallb] in H1; apply andb_true_iff in H1; apply H1).
+    apply orb_false_iff in B. destruct B as [B Bc]. apply orb_false_iff in B. destruct B as [Ba Bb].
+    apply Z.ltb_ge in Ba. apply Z.leb_gt in Bb. apply Z.ltb_ge in Bc. apply Z.ltb_ge in B1.
+    pose proof (ensure_grid_length g0 (length r0)) as LG.
+    set (g := ensure_grid g0 (length r0)) in *. set (p := Z.to_nat a) in *. set (q := Z.to_nat b) in *.
+    assert (Hpq : p <= q) by lia. assert (Hq : q < n) by lia.
+    assert (DG : delete_range p q g = Some (firstn p g ++ skipn (S q) g)).
+    { unfold delete_range. assert (Ep : Nat.leb (S q) (length g) = true) by (apply Nat.leb_le; lia). now rewrite Ep. }
+    rewrite DG.
+    rewrite (map_opt_all _ (fun rw => firstn p rw ++ skipn (S q) rw)).
+    2:{ intros rw Hin. assert (Ga : good_row n rw = true) by (rewrite forallb_forall in H1; now apply H1).
+        now destruct (good_row_delete _ p q rw Ga Hpq Hq). }
+    discriminate.
+Qed.
+
+(* the repaired defect, as a computation: a 2x2 table read without a grid definition takes a new column *)
+Example insert_column_without_grid :
+  step (mkTable None [[new_cell 1%N; new_cell 2%N]; [new_cell 3%N; new_cell 4%N]]) (InsertColumn 1 [9%N] 700%N)
+  = Ok (mkTable (Some [0; 700; 0]%N) [[new_cell 1%N; new_cell 9%N; new_cell 2%N]; [new_cell 3%N; new_cell 0%N; new_cell 4%N]]).
+Proof. vm_compute. reflexivity. Qed.
